@@ -40,8 +40,10 @@ func runC07(c *Ctx) {
 			list = f
 		}
 	}
-	curSize, maxSize := structFieldNamed(c.a.LRUT, "curSize"), structFieldNamed(c.a.LRUT, "maxSize")
-	itKey, itSize := structFieldNamed(c.a.LRUItemT, "key"), structFieldNamed(c.a.LRUItemT, "size")
+	// the bookkeeping fields: by shape (limit = what the constructor stores its parameter in, running size = the other
+	// integer field; item key = key of delete(entries, …), item size = assigned from GetSizeInBytes(); rules_ag10.go)
+	curSize, maxSize := c.a.LRUCurF, c.a.LRUMaxF
+	itKey, itSize := c.a.ItemKeyF, c.a.ItemSizeF
 	var itBM *types.Var
 	ist := c.a.LRUItemT.Underlying().(*types.Struct)
 	for i := 0; i < ist.NumFields(); i++ {
@@ -50,7 +52,7 @@ func runC07(c *Ctx) {
 		}
 	}
 	if entries == nil || list == nil || curSize == nil || maxSize == nil || itKey == nil || itSize == nil || itBM == nil {
-		c.r.undecided("C07.keymatch", "<anchor>", "LRUCache/lruCacheItem do not have the expected fields (map, list, curSize, maxSize / key, size, bitmap)")
+		c.r.undecided("C07.keymatch", "<anchor>", "LRUCache/lruCacheItem do not have the expected fields (map, list, curSize, maxSize / key, size, bitmap)"+c.a.SH.whyText())
 		return
 	}
 	L := &lruCtx{c: c, entries: entries, list: list, curSize: curSize, maxSize: maxSize, itKey: itKey, itSize: itSize, itBM: itBM}
